@@ -220,10 +220,14 @@ func (m *healthMaterial) realiseWitness(wdir string, c healthCond) {
 		// a (validly cosigned) checkpoint of origin A that does not sit under
 		// the hash of its own origin, next to the one that does
 		WriteFile(filepath.Join(wdir, OriginHash(originX), "checkpoint"), wcp)
+	case "missing":
+		// the witness knows nothing of origin A: no pending checkpoint for the mirror
 	default:
 		panic("wcp " + c.Wcp)
 	}
-	WriteFile(filepath.Join(wdir, OriginHash(originA), "checkpoint"), wcp)
+	if c.Wcp != "missing" {
+		WriteFile(filepath.Join(wdir, OriginHash(originA), "checkpoint"), wcp)
+	}
 	WriteFile(filepath.Join(wdir, OriginHash(originB), "checkpoint"), SignNote(originB, pendingN, m.pRoot, m.witness))
 }
 
